@@ -309,6 +309,17 @@ class Recorder:
         """a fresh command object per request, or (scenario flag reuseCommands) one long-lived object
         per protocol instance and kind whose fields are overwritten before every send - a legitimate
         usage pattern: the payload that counts is the one at the time of the send"""
+        if self.scn.get("genericCommands"):
+            # scenario flag genericCommands: the commands are written with the generic dataclass the two helper
+            # classes derive from; a broadcast's destination field "is not necessary" - here it is filled in with some
+            # node's id, which a broadcast ignores (seeded C10_L)
+            from gradysim.protocol.messages.communication import CommunicationCommand, CommunicationCommandType
+            if kind == "send":
+                return CommunicationCommand(CommunicationCommandType.SEND, msg, dst)
+            n = self.scn["cfg"]["nNodes"]
+            # another node's id (the handler refuses any command whose destination is the sender itself)
+            other = None if n < 2 else (proto.provider.get_id() + 1 + len(msg) % (n - 1)) % n
+            return CommunicationCommand(CommunicationCommandType.BROADCAST, msg, other)
         if not self.scn.get("reuseCommands"):
             return SendMessageCommand(msg, dst) if kind == "send" else BroadcastMessageCommand(msg)
         key = (id(proto), kind)
